@@ -1096,6 +1096,23 @@ Proof.
 Qed.
 
 (* ------------------------------------------------------------------------------------ *)
+(* Layer 1, decoder level: the empty topic list                                         *)
+(* ------------------------------------------------------------------------------------ *)
+Theorem C20_subscribe_decode_empty_3 prof pid t r : pid_ok pid = true ->
+  subscribe_decode prof 2 t (be16 pid ++ r) = RErr EmptySubscription.
+Proof.
+  intros Hp. unfold subscribe_decode. ok_by ltac:(apply pid_read_be16; exact Hp).
+  ok_by ltac:(apply checked_sub_ok; lia). reflexivity.
+Qed.
+
+Theorem C20_unsubscribe_decode_empty_3 prof pid t r : pid_ok pid = true ->
+  unsubscribe_decode prof 2 t (be16 pid ++ r) = RErr EmptySubscription.
+Proof.
+  intros Hp. unfold unsubscribe_decode. ok_by ltac:(apply pid_read_be16; exact Hp).
+  ok_by ltac:(apply checked_sub_ok; lia). reflexivity.
+Qed.
+
+(* ------------------------------------------------------------------------------------ *)
 (* One concrete faulty frame per catalogue row, on the three front-ends                 *)
 (* ------------------------------------------------------------------------------------ *)
 Definition run3 (d : bytes) : res packet * bres packet * option (outcome (N * bytes * packet)) :=
